@@ -828,6 +828,10 @@ func unmarshalProto(inBytes []byte, outi interface{}) error {
 		}
 	}
 	for i := range in.Link {
+		if in.Link[i] == "" {
+			// marshalProto stores an absent child as ""; keep it absent
+			continue
+		}
 		out.Link[i] = in.Link[i]
 	}
 	return nil
